@@ -16,17 +16,22 @@ SPEC = "ControlSession"
 
 def run(tier, seed, replay=None):
     pid = "C15"
-    wd = vlib.workdir(pid)
+    wd = vctl_common.run_dir(pid)
     v = vlib.Verdict(pid, tier, seed)
     r = vlib.tlc_must_pass(SPEC, "ControlSession_c15.cfg", wd, workers=1, timeout=600)
-    wit = vlib.witnesses(SPEC, "ControlSession_c15.cfg", ["W15_NoRemoteEffect", "W15_NoUnixBypass", "W15_NoRefusal"], wd, workers=1)
+    wit = vlib.witnesses(SPEC, "ControlSession_c15.cfg", ["W15_NoRefusal"] if tier == "quick" else ["W15_NoRemoteEffect", "W15_NoUnixBypass", "W15_NoRefusal"], wd, workers=1)
     vectors = os.path.join(r.dir, "c15.ndjson")
     nvec = sum(1 for _ in open(vectors))
     if nvec != r.distinct:
         raise vlib.Inconclusive("vector file has %d lines but TLC found %d distinct states" % (nvec, r.distinct))
     vctl = vlib.build_harness("vctl")
-    inst = 1 if tier == "quick" else 6
+    quick = tier == "quick"
+    inst = 1 if quick else 3
     args = ["c15", "-vectors", vectors, "-receptor", vctl_common.receptor_copy(wd), "-work", wd, "-seed", str(seed), "-instances", str(inst)]
+    if quick:
+        # seeded stratified subset: two rotating token classes in every (command, connection, work type) cell, plus valid and
+        # absent in the cells the property protects
+        args += ["-subset", "2"]
     if replay:
         args += ["-replay", replay]
     res = vlib.harness_json(vctl, args, wd, timeout=3000)
@@ -34,8 +39,9 @@ def run(tier, seed, replay=None):
         v.violation(viol["sig"], viol["what"], viol["replay"])
     if res.get("inconclusive") and not v.violations:
         raise vlib.Inconclusive("; ".join(res["inconclusive"][:5]))
-    if not replay and res["evaluations"] != nvec * inst and not v.violations:
-        raise vlib.Inconclusive("harness evaluated %d of %d vector instances" % (res["evaluations"], nvec * inst))
+    planned = res["counters"].get("vectors", 0) * inst
+    if not replay and not v.violations and (res["evaluations"] != planned or (not quick and planned != nvec * inst) or planned < 75 * 2 * inst):
+        raise vlib.Inconclusive("harness evaluated %d of %d planned vector instances (table %d)" % (res["evaluations"], planned, nvec))
     c = res["counters"]
     if not replay and (c.get("effects_confirmed", 0) == 0 or c.get("refusals_confirmed", 0) == 0):
         if not res["violations"]:
@@ -43,13 +49,16 @@ def run(tier, seed, replay=None):
     cov = {
         "states": r.distinct, "transitions": r.generated, "traces_validated_against_impl": 0,
         "evaluations": res["evaluations"], "distinct_nontrivial": res["distinct"],
-        "rule": "TLC enumerates every (command, connection kind, work-type class, token class) vector of ControlSession.tla part c15; every vector is "
+        "rule": "TLC enumerates every (command, connection kind, work-type class, token class) vector of ControlSession.tla part c15; " +
+                ("quick: a seeded stratified subset (every one of the 75 command x connection x work-type cells with two token classes rotating with "
+                 "cell and seed - every token class occurs in 15 cells - plus valid and absent in the 20 protected cells) is " if quick else "every vector is ") +
                 "executed %d time(s) on the real daemon with freshly built tokens (valid: RS512/RS256/PS384 by the configured key; expired; other audience "
                 "incl. none/empty/upper-case; other key; alg none with and without a borrowed signature; HS256/HS512 keyed with the public-key PEM; "
                 "truncated; empty; garbage) and a live unit of the class; effect = new unit / state change / runner pid gone / directory removed / "
                 "stream bytes received, from snapshots taken over the Unix socket and the file system; distinct = distinct (vector, token variant, "
                 "request form)" % inst,
-        "samples": (res.get("samples") or [{"note": "run stopped before sampling"}])[:6], "exhaustive": True, "vectors": nvec, "instances_per_vector": inst,
+        "samples": (res.get("samples") or [{"note": "run stopped before sampling"}])[:6], "exhaustive": not quick, "vectors": nvec,
+        "vectors_replayed": res["counters"].get("vectors", 0), "instances_per_vector": inst,
         "counters": c, "witnesses": wit,
         "tlc": {"spec": "ControlSession.tla", "cfg": "ControlSession_c15.cfg", "generated": r.generated, "distinct": r.distinct, "wall_s": round(r.wall, 1)},
     }
